@@ -322,10 +322,11 @@ Peer == Strict \cup {<<"c1", "c1">>, <<"c1", "c2">>, <<"c1", "c3">>, <<"c1", "x"
 \* key bits of the named certificate (anybody can compute it), "digestkl" = DigestSha256 with a key locator,
 \* "wrongtype" = a signature of another algorithm than the named certificate's key (ECDSA under an RSA key, ...).
 \* "wrongcurve" = a genuine signature of the SAME SignatureType made with a key of another size than the named
-\* certificate's key (ECDSA on another curve, RSA with another modulus length; Ed25519 has one size: as "wrongtype").
+\* certificate's key (ECDSA on another curve, RSA with another modulus length; Ed25519 has one size: as "wrongtype");
+\* abstractly the same as "wrongtype", so it is injected where the algorithms vary (AlgWorld below, recorded random worlds).
 \* None of them is a signature that verifies under the certificate's public key: all must be rejected.
 \* A validator call that raises instead of returning is neither verdict: the executor reports it (raised:<Exception>).
-LinkDevs == {"forged", "subst", "nokl", "digest", "hmac", "unknownsig", "hmacpub", "digestkl", "wrongtype", "wrongcurve"}
+LinkDevs == {"forged", "subst", "nokl", "digest", "hmac", "unknownsig", "hmacpub", "digestkl", "wrongtype"}
 CertDevs == {"shape", "absent", "nack", "timeout"}         \* at links whose signer is a fetched certificate, 1..d-1
 Params(maxd) ==
   {[sch |-> "strict", d |-> d, dev |-> "none", i |-> 0] : d \in 1..maxd}
@@ -440,8 +441,7 @@ WOrd == {MCWorld(q) : q \in {[sch |-> "strict", d |-> 2, dev |-> "none", i |-> 0
 AllKeys == {"kRA", "kRB", "kA1", "kA2", "kA3", "kB1", "kO"}
 WEd == {[MCWorld(q) EXCEPT !.alg = [k \in AllKeys |-> "ed"]] : q \in {[sch |-> "strict", d |-> 2, dev |-> "none", i |-> 0],
                                                                      [sch |-> "strict", d |-> 2, dev |-> "forged", i |-> 1]}}
-       \* only the intermediate certificate's key / only the anchor's key is an Ed25519 key
-       \cup {[MCWorld([sch |-> "strict", d |-> 2, dev |-> "none", i |-> 0]) EXCEPT !.alg = [k \in {x} |-> "ed"]] : x \in {"kA1", "kRA"}}
+\* (hierarchies where only the anchor's / an intermediate certificate's / the packet signer's key is an Ed25519 key: WAlgQ)
 
 (* Key algorithms by role. Chain RA - A1 - A2 - P1 (d = 3): kRA is the ANCHOR's key (it signs the anchor itself and
    A1), kA1 the key of an INTERMEDIATE certificate (it signs A2), kA2 the PACKET SIGNER (it signs P1): link i (1 =
